@@ -43,7 +43,9 @@ def build(case):
         # a document captured from the repository's own tests (vf/repo_corpus.py)
         h = Hugr.load_json(json.dumps(case["doc"]))
     elif case.get("prog") is not None:
-        h = Interp().run(case["prog"])
+        it = Interp()
+        h = it.run(case["prog"])
+        info["interp"] = it
     else:
         h = Hugr()
     for c in case.get("plant", []):
